@@ -5,8 +5,8 @@
    structural translation into the mini language of lib/PyLoop.v).  model/SkeletonPrims.v maps every opaque
    primitive name the translator emitted to an abstract oracle of the model.  The theorems say: under the
    interpreter of PyLoop.v the translated body of get_next_imf computes exactly what [gni_loop] /
-   [get_next_imf_gen] compute, and the translated body of sift computes exactly what [peel_loop] computes -
-   for EVERY signal type, EVERY behaviour of the oracles and EVERY fuel.  A change to the control flow of
+   [get_next_imf_gen] compute, and the translated body of sift and the translated outer loop of mask_sift
+   compute exactly what [peel_loop] computes - for EVERY signal type, EVERY behaviour of the oracles and EVERY fuel.  A change to the control flow of
    those functions changes Gen_Skeleton.v and these proofs have to go through again. *)
 From Coq Require Import String List Bool Arith.
 From EmdV Require Import lib.PyLoop model.SiftCore gen.Gen_Skeleton model.SkeletonPrims proofs.SkeletonFacts.
@@ -93,9 +93,37 @@ Section TieSift.
   Proof. exact (fun X => SkeletonFacts.peel_extract_of V vzero vadd vsub small ext cap X). Qed.
 End TieSift.
 
+Section TieMaskSift.
+  Variable V : Type.
+  Variable vzero : V.
+  Variable vadd vsub : V -> V -> V.
+  Variable small : V -> bool.                    (* np.abs(next_imf).sum() < sift_thresh *)
+  Variable gm : V -> val V -> val V -> option (V * bool).   (* get_next_imf_mask(residual, z, amp, ...) *)
+  Variable fs : list (val V).                    (* the entries of mask_freqs *)
+  Variable mode : amp_mode3.                     (* mask_amp_mode *)
+  Variable ma : option (list (val V)).           (* mask_amp: a single number / array_like *)
+  Variable sd0 : val V.                          (* sd as initialised above the loop *)
+  Variable k : option nat.                       (* max_imfs is None or S k when the loop is reached *)
+  Variable rmf : bool.                           (* ret_mask_freq *)
+
+  Let P := mask_prims V vzero vadd vsub small gm.
+  (* peel_loop with the per-layer extraction: amp = mask_amp[layer] * sd, z = mask_freqs[layer]
+     (IndexError when either is missing), sd = imf[:, -1].std() from the second layer on in ratio_imf mode *)
+  Let peel := peel_loop V vzero vadd vsub small (mask_extract V vzero gm fs mode ma sd0).
+
+  (* the translated outer loop of mask_sift (initialisation run, loop, return), entered with the parameters
+     as they stand after the option pre-processing, for every fuel: OutOfFuel / Raise (EMDSiftCovergeError
+     or IndexError) / Return <columns> (with mask_freqs when ret_mask_freq) exactly as the model *)
+  Theorem skeleton_mask_sift_refines : forall X (o : mask_rest V) f,
+    mask_agrees fs rmf (exec P prog_mask_sift f (mask_env0 V fs mode ma sd0 k rmf X o))
+                (peel f (option_map S k) X []).
+  Proof. exact (SkeletonFacts.skeleton_mask_sift_refines V vzero vadd vsub small gm fs mode ma sd0 k rmf). Qed.
+End TieMaskSift.
+
 Print Assumptions log_test_never_masks_raise.
 Print Assumptions skeleton_get_next_imf_exact.
 Print Assumptions skeleton_get_next_imf_model.
 Print Assumptions skeleton_get_next_imf_refines.
 Print Assumptions skeleton_sift_refines.
 Print Assumptions peel_extract_of.
+Print Assumptions skeleton_mask_sift_refines.
